@@ -127,7 +127,17 @@ def showA (s : AStream) : String :=
   "A cols=[" ++ ",".intercalate (s.cols.map fun c => hexOfBytes c.1 ++ ":" ++ showBuilder c.2)
     ++ "] batches=[" ++ ";".intercalate (s.batches.map fun b => String.join (b.map showRow)) ++ "]"
 
-def answerTable (toks : List String) : Option String :=
+/-- A parsed `table` case: kept by the driver so that the following `+<encoding>` lines
+(one per encoding of the same case) need not repeat it. -/
+structure TCase where
+  ext : Ext
+  cfg : Settings
+  w : Writer
+  batchMode : Bool
+  schema : Schema
+  batches : List Batch
+
+def parseTable (toks : List String) : Option TCase :=
   match toks with
   | w :: lim :: off :: bm :: nc :: rest => do
     let w ← parseWriter w
@@ -141,13 +151,33 @@ def answerTable (toks : List String) : Option String :=
       let nb ← nb.toNat?
       let (batches, rest3, h) ← parseBatches ncols nb rest2 {}
       if !rest3.isEmpty then none else
-      let ext := h.ext
-      let cfg : Settings := ⟨limit, offset⟩
-      let j := writeJson ext cfg w batchMode schema batches
-      let a := writeArrow ext cfg w schema batches
-      some (showJ "J" j ++ " | " ++ showJ "U" j ++ " | " ++ showA a)
+      some ⟨h.ext, ⟨limit, offset⟩, w, batchMode, schema, batches⟩
     | [] => none
   | _ => none
+
+def showRows (tag : String) (rows : List (List Cell)) : String :=
+  tag ++ " rows=" ++ String.join (rows.map showRow)
+
+def showRendered (tag : String) (r : Rendered) : String :=
+  let cnt := match r.count with | some c => toString c | none => "-"
+  tag ++ s!" status={r.status} count={cnt} cols=["
+    ++ ",".intercalate (r.cols.map fun c => hexOfBytes c.1 ++ ":" ++ hexOfBytes c.2)
+    ++ "] rows=" ++ String.join (r.rows.map showRow)
+
+/-- Answer for one encoding of a case, each from its own model function. -/
+def answerEnc (c : TCase) (enc : String) : String :=
+  let rows := emittedRows c.cfg c.w c.schema c.batches
+  match enc with
+  | "J" => showJ "J" (writeJson c.ext c.cfg c.w c.batchMode c.schema c.batches)
+  | "U" => showJ "U" (writeUnix c.ext c.cfg c.w c.batchMode c.schema c.batches)
+  | "A" => showA (writeArrow c.ext c.cfg c.w c.schema c.batches)
+  -- the other frame kind of each renderer, called directly on the emitted rows
+  | "JX" => showRows "JX" (if c.batchMode then rows.map (jsonRowFrame c.ext) else jsonBatchFrame c.ext rows)
+  | "UX" => showRows "UX" (if c.batchMode then rows.map (unixRowFrame c.ext) else unixBatchFrame c.ext rows)
+  | "RJ" => showRendered "RJ" (renderTableJson c.ext c.schema rows rows.length)
+  | "RU" => showRendered "RU" (renderTableUnix c.ext c.schema rows rows.length)
+  | "RA" => showRendered "RA" (renderTableArrow c.ext c.schema rows rows.length)
+  | _ => "bad-op"
 
 def answerErr (toks : List String) : Option String :=
   match toks with
@@ -161,10 +191,32 @@ def answerErr (toks : List String) : Option String :=
     some (hexOfBytes out ++ s!" body={body} http={httpStatus out (some code)}")
   | _ => none
 
-def answer (line : String) : String :=
+/-- One line → (new remembered case, answer). `table …` answers with the JSON renderer's
+stream and remembers the case; `+U`, `+A`, `+JX`, `+UX`, `+RJ`, `+RU`, `+RA` answer for the
+remembered case. -/
+def step (st : Option TCase) (line : String) : Option TCase × String :=
   match words line with
-  | "table" :: rest => (answerTable rest).getD "bad-op"
-  | "err" :: rest => (answerErr rest).getD "bad-op"
-  | _ => "bad-op"
+  | "table" :: rest =>
+    match parseTable rest with
+    | some c => (some c, answerEnc c "J")
+    | none => (none, "bad-op")
+  | [tok] =>
+    if tok.startsWith "+" then
+      match st with
+      | some c => (st, answerEnc c (String.ofList (tok.toList.drop 1)))
+      | none => (st, "bad-op")
+    else (st, "bad-op")
+  | "err" :: rest => (st, (answerErr rest).getD "bad-op")
+  | _ => (st, "bad-op")
 
-def main : IO Unit := serve answer
+partial def loopSt (h : IO.FS.Stream) (out : IO.FS.Stream) (st : Option TCase) : IO Unit := do
+  let line ← h.getLine
+  if line.isEmpty then
+    out.flush
+    return ()
+  let (st', ans) := step st line
+  out.putStrLn ans
+  loopSt h out st'
+
+def main : IO Unit := do
+  loopSt (← IO.getStdin) (← IO.getStdout) none
